@@ -130,7 +130,7 @@ def render_limited(t, L, data):
 def _mk_out(kind):
     def f(vi: int, wi: int, n: int, L: int) -> bool:
         """
-        pre: 0 <= vi <= 6 and 0 <= wi <= 6 and 0 <= n <= 3
+        pre: 0 <= vi <= 6 and 0 <= wi <= 3 and 0 <= n <= 2
         pre: 0 <= L <= 60
         post: _
         """
@@ -155,7 +155,7 @@ def _mk_out_exact(kind):
     # for skeletons without capture/ifchanged side buffers the limit is exact: raises IFF unlimited > L
     def f(vi: int, wi: int, n: int, L: int) -> bool:
         """
-        pre: 0 <= vi <= 6 and 0 <= wi <= 6 and 0 <= n <= 3
+        pre: 0 <= vi <= 6 and 0 <= wi <= 3 and 0 <= n <= 2
         pre: 0 <= L <= 60
         post: _
         """
